@@ -24,6 +24,7 @@ LEVEL_TEXT = ("Fault enumeration by runtime monitoring: for each configuration t
               "write in-process and at every write syscall via strace fault injection, foreign files that differ in one config field) "
               "and the real from_config is run against it; the oracle compares the returned mazes and the file left behind with a "
               "fresh generation. Held on the enumerated faults, not a proof about all damage.")
+TECHNIQUE = 'runtime monitoring with fault injection: enumerated cache-file faults (missing, empty, truncation and single-byte corruption at byte offsets, OSError at every stream write in-process, SIGKILL at every write(2) via strace, foreign files differing in one config field) against the real from_config; oracle = fresh generation digests + reload of the file left behind'
 RULE = ("fault classes per configuration: F0 missing, F1 empty, F2 truncation (every offset in the first/last 128 bytes + a stride "
         "elsewhere in quick, every offset in thorough), F3 single-byte corruption (xor 0xFF and a random byte, same offset sets), "
         "F4a OSError(ENOSPC) raised at the k-th write() on the zip stream for every k (persisting and transient), then gc, "
